@@ -85,6 +85,10 @@ def analyse(fn, spec):
                 if a.get(v) and b.get(v):
                     r[v] = True
                 continue
+            if str(v).startswith("#v:"):
+                # value of one arm of a conditional expression: known on the paths through that arm only
+                r[v] = max(a[v], b[v]) if (v in a and v in b) else (a[v] if v in a else b[v])
+                continue
             dflt = N if str(v).startswith("#c:") else T
             r[v] = max(a.get(v, dflt), b.get(v, dflt))
         return r
@@ -100,6 +104,10 @@ def analyse(fn, spec):
             v = T
             if k in ("Paren", "ICast", "Cast"):
                 v = val.get(nd["ch"][0], T)
+            elif k == "Cond":
+                # `c ? a : b`: the arms were evaluated in their own blocks
+                arms = [st.get("#v:%d" % x) for x in nd["ch"][1:3]]
+                v = max(arms) if all(x is not None for x in arms) else T
             elif k == "Int":
                 v = N if nd["v"] == 0 else T
             elif k == "DeclRef":
@@ -210,6 +218,9 @@ def analyse(fn, spec):
                     if collect is not None:
                         collect.append({"node": e, "kind": "subscript", "index": idx, "state": val.get(idx, T), "storage": nodes[fn.strip(base)]["field"]})
             val[e] = v
+            pe = fn.parent[e]
+            if pe is not None and nodes[pe]["k"] == "Cond" and e in nodes[pe]["ch"][1:3]:
+                st["#v:%d" % e] = v
         return st
 
     def refine(st, cond, pol):
